@@ -520,6 +520,27 @@ func indexTop(s, pat string) int {
 	return -1
 }
 
+func indexTopWord(s, w string) int {
+	from := 0
+	for {
+		k := indexTop(s[from:], w)
+		if k < 0 {
+			return -1
+		}
+		k += from
+		before := k == 0 || !(isIdentChar(s[k-1]))
+		after := k+len(w) >= len(s) || s[k+len(w)] == ' '
+		if before && after {
+			return k
+		}
+		from = k + len(w)
+	}
+}
+
+func isIdentChar(c byte) bool {
+	return c == '_' || c >= 'a' && c <= 'z' || c >= 'A' && c <= 'Z' || c >= '0' && c <= '9'
+}
+
 var quantRe = regexp.MustCompile(`^(forall|exists)\s+([A-Za-z_][A-Za-z0-9_]*(?:\s*,\s*[A-Za-z_][A-Za-z0-9_]*)*)\s+([A-Za-z_][A-Za-z0-9_.\[\]]*)\s*::`)
 
 // rewriteExpr turns the contract surface syntax into a parsable Go expression:
@@ -531,7 +552,21 @@ func rewriteExpr(s string) string {
 		body := s[len(m[0]):]
 		return fmt.Sprintf("%s(func(%s %s) bool { return %s })", m[1], m[2], m[3], rewriteExpr(body))
 	}
-	if k := indexTop(s, "==>"); k >= 0 {
+	k := indexTop(s, "==>")
+	q := indexTopWord(s, "forall")
+	if q2 := indexTopWord(s, "exists"); q2 >= 0 && (q < 0 || q2 < q) {
+		q = q2
+	}
+	if q > 0 && (k < 0 || q < k) {
+		// a quantifier in the middle extends to the end: A && forall x :: B
+		prefix := strings.TrimSpace(s[:q])
+		for _, op := range []string{"&&", "||"} {
+			if strings.HasSuffix(prefix, op) {
+				return "(" + rewriteExpr(strings.TrimSuffix(prefix, op)) + ") " + op + " (" + rewriteExpr(s[q:]) + ")"
+			}
+		}
+	}
+	if k >= 0 {
 		return "implies(" + rewriteExpr(s[:k]) + ", " + rewriteExpr(s[k+3:]) + ")"
 	}
 	// a top-level && / || chain whose operands contain quantifiers: split so
